@@ -65,8 +65,8 @@ struct nodeobs g_ox;  /* observation of the returned node */
 	X(e != 0 && t != 0 && e == g_l && e->type == g_lt && t == g_rt && e->kind == g_ekind) \
 	X(g_enAb <= AT_ULLONG && g_enBb <= AT_ULLONG) \
 	X(TS_OPERAND(g_ets) && TS_TARGET(g_tts)) \
-	X(IMP(g_ets == TS_PTR, g_ebs < BS_N && g_eq < 8)) \
-	X(IMP(g_tts == TS_PTR, g_tbs < BS_N && g_tq < 8)) \
+	X(IMP(g_ets == TS_PTR, g_ebs < BS_N && g_eq <= QUALMAX)) \
+	X(IMP(g_tts == TS_PTR, g_tbs < BS_N && g_tq <= QUALMAX)) \
 	X(g_eek < EK_N) \
 	X(IMP(g_eek == EK_BITFIELD, TS_ISINT(g_ets))) \
 	/* no caller folds the operand first (postfixexpr, parseinit, stmt pass assignexpr()/expr() results), so a constant \
@@ -116,8 +116,8 @@ harness(void)
 	IN(unsigned, in_tts); IN(unsigned, in_tbs); IN(unsigned, in_tq);
 
 	__CPROVER_assume(in_enAb <= AT_ULLONG && in_enBb <= AT_ULLONG);
-	__CPROVER_assume(in_ets < TS_N && in_ebs < BS_N && in_eq < 8 && in_eek < EK_N && in_equal < 8);
-	__CPROVER_assume(in_tts < TS_N && in_tbs < BS_N && in_tq < 8);
+	__CPROVER_assume(in_ets < TS_N && in_ebs < BS_N && in_eq <= QUALMAX && in_eek < EK_N && in_equal <= QUALMAX);
+	__CPROVER_assume(in_tts < TS_N && in_tbs < BS_N && in_tq <= QUALMAX);
 	build_universe(in_signedchar, in_enAb, in_enBb);
 	g_ets = in_ets; g_ebs = in_ebs; g_eq = in_eq; g_eek = in_eek; g_ev = in_ev;
 	g_tts = in_tts; g_tbs = in_tbs; g_tq = in_tq;
